@@ -80,6 +80,7 @@ pub fn program_corpus(tier: Tier) -> Vec<(String, &'static str)> {
   }
   for a in ["+", "*", "^", "<", "&&"] { for b in ["+", "*", "^", "<", "&&"] { push(format!("x := a {} b {} c", a, b), "mixed-chain", &mut v); push(format!("x := (a {} b) {} c", a, b), "mixed-paren", &mut v); push(format!("x := a {} (b {} c)", a, b), "mixed-paren", &mut v); push(format!("x := ((a {} b) {} (c {} d)) {} e", a, b, a, b), "nested-paren", &mut v); } }
   for s in ["x := -a", "x := !a", "x := a'", "x := -(a + b)", "x := !(a && b)", "x := (a + b)'", "x := ((1))", "x := ((1, 2))", "x := (a)", "x := ((a + b) * (c + d)) ^ 2", "x := -a ^ 2", "x := 1..5", "x := 1..=5", "x := 1..2..10", "x := a..b", "x := (a + 1)..=(b * 2)"] { push(s.to_string(), "unary-range-paren", &mut v); }
+  for (o1, o2) in [("..", ".."), ("..", "..="), ("..=", ".."), ("..=", "..=")] { for (a, st, b) in [("1", "2", "10"), ("a", "s", "b"), ("(a + 1)", "(s * 2)", "(b - 1)"), ("10", "-2", "1")] { push(format!("x := {}{}{}{}{}", a, o1, st, o2, b), "stepped-range", &mut v); push(format!("x := y[{}{}{}{}{}]", a, o1, st, o2, b), "stepped-range", &mut v); } }
   // subscripts
   for i in ["1", "1,2", ":", "1,:", ":,2", "[1 2]", "[1 2],[2 1]", "1..=2", "1..=2,:", "a", "a,b", "[true false]", "a + 1"] { push(format!("x := y[{}]", i), "subscript", &mut v); push(format!("y[{}] = 5", i), "subscript-assign", &mut v); }
   for s in ["x := y.a", "x := y.1", "x := y.a.b", "x := y.a[1]", "x := y{1}", "y.a = 5", "y += 1", "y -= 1", "y *= 2", "y /= 2", "y[1] += 1", "~y := 5", "y = 6", "(a, b) := (1, 2)", "x<u8> := 5", "x<[u8]> := [1 2]", "x<[f64]:2,3> := y", "x<{f64}> := y", "x<f64?> := 1", "x<(f64,string)> := y", "~x<u8> := 1"] { push(s.to_string(), "statement", &mut v); }
@@ -145,6 +146,8 @@ pub fn program_corpus(tier: Tier) -> Vec<(String, &'static str)> {
             "```mech\nx := 1\ny := x + 1\n```", "```mech:alpha\nx := 1\n```", "```mech:hidden\nx := 1\n```", "```mech:disabled\nx := 1\n```", "```mech {output: false}\nx := 1\n```", "```mech:alpha {output: \"false\"}\nx := 1\n```", "```mech\nx := [1 2; 3 4]\n-- a comment\ny := x'  -- trailing\n```", "```mech\nf(n<f64>) => <f64>\n  ├ 0 => 10\n  └ n => n * 2.\ny := f(2)\n```", "```mec\nx := 1\n```", "```🤖\nx := 1\n```", "~~~mech\nx := 1\n~~~",
             "$$ x = \\frac{1}{2}", "%% an abstract\nover two lines", "%% first\n\nText after.",
             "Title\n=====\n\nIntro paragraph.\n\n1. First\n--------\n\nText one.\n\n(1.1) Sub\n\nText sub.\n\n(1.1.1) Subsub\n\nDeep text.\n\n2. Second\n---------\n\nx := 1\n\nText two.\n\n(2.1) Sub two\n\ny := x + 1",
+            "1. S\n----\n\n(1.1) A\n\n(1.1.1) B\n\n(1.1.1.1) C\n\n(1.1.1.1.1) D\n\n(1.2) E\n\nText.", "(1.1.1.1) level five alone", "(1.1.1.1.1) level six alone", "(1.1.1.1.1.1) level seven alone", "(a) lettered heading", "(1.a) mixed heading", "(A.1.b) mixed heading three",
+            "- a\n  - b\n    - c\n      - d", "1. a\n  1. b\n    1. c", "-[ ] a\n  -[x] b\n    -[ ] c", "10. ten\n11. eleven", "0. zero\n1. one",
             "1. Only section\n---------------\n\nx := 1", "Title\n=====\n\nx := 1", "(1) Sub without section\n\nx := 1", "1. A\n----\n\n2. B\n----\n\n3. C\n----\n\nx := 1", "1. A\n----\n\n(1.1) a\n\n(1.2) b\n\n2. B\n----\n\n(2.1) c\n\nText.",
             "x := 1\n\nA paragraph.\n\ny := 2\n\n- a list\n\nz := 3", "x := 1 -- c1\ny := 2 // c2\n-- c3\nz := 3", "-- c1\n-- c2\nx := 1", "x := 1\n\n-- a comment after a blank line\n\ny := 2", "--no space", "-- comment with **bold** and `code`", "-- comment with x := 1 inside", "x := 1; y := 2; z := 3", "x := 1;\ny := 2;"] { push(s.to_string(), "mechdown-more", &mut v); }
   // two-level templates: every statement form with every expression form as its right-hand side
